@@ -3611,3 +3611,30 @@ pub proof fn lemma_tour_confined_list<T>(s: Seq<Node<T>>, w: Ranks, c: NodeId, p
     }
 }
 
+/// what `free_node(x)` may change: nothing about links, and no generation but x's
+pub open spec fn free_frame<T>(o: Seq<Node<T>>, n: Seq<Node<T>>, x: int) -> bool {
+    &&& n.len() == o.len() && n[x].stamp.removed()
+    &&& forall|i: int| 0 <= i < o.len() ==> same_links(#[trigger] n[i], o[i]) && (i != x ==> n[i].stamp == o[i].stamp)
+}
+
+/// established once at the start of `free_node`, so that every exit path gets the link invariants
+pub proof fn lemma_free_links_all<T>(o: Seq<Node<T>>, x: int)
+    // @props C12 C01 C02
+    requires
+        links_ok(o),
+        exists|w: Ranks| ranked(o, w),
+        0 <= x < o.len(),
+        no_links(o[x]),
+    ensures
+        forall|n: Seq<Node<T>>| #[trigger] free_frame(o, n, x) ==> links_ok(n),
+        forall|n: Seq<Node<T>>, w: Ranks| #[trigger] free_frame(o, n, x) && #[trigger] ranked(o, w) ==> ranked(n, w),
+{
+    let w0 = choose|w: Ranks| ranked(o, w);
+    assert forall|n: Seq<Node<T>>| #[trigger] free_frame(o, n, x) implies links_ok(n) by {
+        lemma_free_links(o, n, w0, x);
+    }
+    assert forall|n: Seq<Node<T>>, w: Ranks| #[trigger] free_frame(o, n, x) && #[trigger] ranked(o, w) implies ranked(n, w) by {
+        lemma_free_links(o, n, w, x);
+    }
+}
+
